@@ -657,7 +657,19 @@ fn run_shard(depth: usize, k: usize, n: usize, dir: &str) -> i32 {
     // freed, from a set of composition states per profile (values the three keys of the alphabet never produce: empty
     // values, multi-code-point values, rewritten compositions, ANSI conversions of every character of the layout)
     let key = |c: char, m: u8| Act::KeyRaw(keys::code_for_char(c).unwrap(), m);
-    let pre_fixed: Vec<Vec<Act>> = vec![vec![], vec![key('k', 0)], vec![key('k', 0), key('/', 0)], vec![key('k', 0), key('a', 0)], vec![key('v', 0)], vec![key(',', 0)], vec![key('"', 0), key('k', 0)], vec![key('k', 0), key('/', 0), key('k', 0)]];
+    let pre_fixed: Vec<Vec<Act>> = vec![vec![], vec![key('k', 0)], vec![key('k', 0), key('/', 0)], vec![key('k', 0), key('a', 0)], vec![key('v', 0)], vec![key(',', 0)], vec![key('"', 0), key('k', 0)], vec![key('k', 0), key('/', 0), key('k', 0)],
+        // consonants that combine with the nukta key (decomposed letters cross the ANSI conversion), alone and inside a word with
+        // dictionary candidates
+        vec![key('D', 0)], vec![key('g', 0), key('a', 0), key('D', 0)]];
+    let mut pre_fixed = pre_fixed;
+    if depth >= 7 {
+        // thorough tier: EVERY published key in both planes as the composition state (all two-key compositions)
+        for kd in keys::KEYS.iter() {
+            for m in [0u8, 2] {
+                pre_fixed.push(vec![Act::KeyRaw(kd.code, m)]);
+            }
+        }
+    }
     let pre_phon: Vec<Vec<Act>> = vec![vec![], vec![key('k', 0)], vec![key('a', 0)], vec![key(':', 0)], vec![key('`', 0)], vec![key('"', 0), key('k', 0)], vec![key('k', 0), key('O', 0)]];
     // Known finding K01 (C01/C02/C16): with ANSI on, a text containing U+09C4 (or the unassigned U+09C5/6/9/A) makes the
     // third-party Bijoy converter panic, which aborts the process at the C boundary. Those keys are left out of the ANSI
